@@ -4,6 +4,7 @@ import Grexv.Props.C10
 import Grexv.Lemmas.Lex
 import Grexv.Lemmas.EndToEnd
 import Grexv.Props.C03
+import Grexv.Lemmas.RepPipeline
 
 /-!
 # C01 — soundness: the generated regex matches every test case (stage lemmas)
@@ -170,5 +171,43 @@ theorem sound_verbose (cfg : Config) (hp : VerbosePrint cfg) (hci : cfg.ci = fal
     fun u => List.map_congr_left (fun c _ => Props.C03.convAtom_documented cfg c)
   rw [this]
   exact Props.C03.generalises_self cfg t
+
+/-! ## with repetition conversion (`-r`): up to the minimised automaton -/
+
+/-- **C01 with `-r`, S1–S6, all inputs** (no class option, any thresholds): for every stored test case `w`, the cluster S4 makes
+of it is handed to the trie, its graphemes — each repeated by its count — spell `w`, and (unless `w` is empty) the minimised
+automaton has an accepting path that carries it: edge by edge the label has the grapheme's characters and a range of counts
+`{m,n}` that contains the grapheme's count.  (This is the statement that was *false* before the repair 7496dbd:
+`["xc","yc","ycc","xccc","yccc"]` lost `ycc` in the minimisation.)  Elimination and printing of counted labels are not
+covered by a theorem; the differential streams cover them. -/
+theorem repetitions_sound_automaton (cfg : Config) (env : Env) (ws : List Str) (st : Stages)
+    (h : regExpFrom cfg env ws = .ok st) (hrep : cfg.rep = true) (hnc : cfg.charClassFeature = false)
+    (hseg : ∀ w ∈ st.sorted, (env.segOf w).flatten = w ∧ ∀ p ∈ env.segOf w, p ≠ [])
+    (w : Str) (hw : w ∈ st.sorted) :
+    convertRepetitions cfg (clusterOfPieces (env.segOf w)) ∈ st.clusters ∧
+    (expandAll (convertRepetitions cfg (clusterOfPieces (env.segOf w)))).flatten = w ∧
+    (w ≠ [] → st.minimized.CAccepts (convertRepetitions cfg (clusterOfPieces (env.segOf w)))) := by
+  have hpc : clusterOfPieces (env.segOf w) ∈ preClusters cfg env st.sorted := by
+    simp only [preClusters, hnc, Bool.false_eq_true, ite_false]
+    exact List.mem_map_of_mem hw
+  obtain ⟨h1, h2, _, h4⟩ := rep_pipeline_sound cfg env ws st h hrep (fun w hw => (hseg w hw).2) _ hpc
+  have hflat : (expandAll (convertRepetitions cfg (clusterOfPieces (env.segOf w)))).flatten = w := by
+    rw [h2, s2_cluster_flatten]; exact (hseg w hw).1
+  refine ⟨h1, hflat, ?_⟩
+  intro hne
+  apply h4
+  intro hnil
+  rw [hnil] at hflat
+  exact hne (by simpa [expandAll] using hflat.symm)
+
+/-- the input on which the unrepaired minimisation lost `ycc`, evaluated by the kernel on the model (the correspondence stream
+compares the same input with the implementation) -/
+example :
+    let env : Env := { lowerOf := id, segOf := fun w => w.map fun c => [c] }
+    (match regExpFrom { rep := true } env [strOf "xc", strOf "yc", strOf "ycc", strOf "xccc", strOf "yccc"] with
+      | .ok st => some st.finalAst
+      | .error _ => none) =
+      some (.alt [.cat (.lit [.mk [[120]] [] 1 1]) (.alt [.lit [.mk [[99]] [] 1 1], .lit [.mk [[99]] [] 3 3]]),
+                  .lit [.mk [[121]] [] 1 1, .mk [[99]] [] 1 3]]) := by decide +kernel   -- ^(?:x(?:c|c{3})|yc{1,3})$
 
 end Grexv.Props.C01
